@@ -24,7 +24,7 @@ TRUSTED = ['Lean 4.33 kernel', 'axioms: propext, Classical.choice, Quot.sound', 
            'numpy.linalg.eigvalsh / matrix_rank in the probe (contract)',
            'modelled, not verified: numqi/state/_internal.py, entangle/upb.py, dicke.py, utils.get_tetrahedron_POVM, unique_determine.get_chebshev_orthonormal',
            'literature, not proved: unextendibility of the UPBs; optimality of the closed-form REE/EOF/GME values']
-OPEN_STATEMENTS = ['Numqi.C18.Eprobe9Unitary.Statement']   # eq9 bases unitary for every even dim (proved for even dim 4..12)
+OPEN_STATEMENTS = []   # Eprobe9Unitary (eq9 bases unitary for every even dim >= 4) is proved since round 9: eprobe9_unitary
 
 
 def f2b(x):
@@ -310,7 +310,7 @@ def _correspondence_main(ctx):
     with np.errstate(all='ignore'):
         run(ops, impl, 1e-14, 'f', key='wtgme')
     # element-probing measurements: exact Gaussian-integer tables (eq9: sqrt2 x entry; the returned projectors are the outer products)
-    for kind, dims in [('eq8', [1, 2, 3, 4, 5, 8]), ('eq9', [2, 3, 4, 5, 6, 8, 10, 12])]:
+    for kind, dims in [('eq8', [1, 2, 3, 4, 5, 8]), ('eq9', [2, 3, 4, 5, 6, 8, 10, 12, 18, 24])]:   # the theorem eprobe9_unitary covers every even dim: tie beyond the former decide range too
         for dim in dims:
             op = f'C18 eprobe {kind} {dim}'
             r = guarded(lambda: np.asarray(numqi.unique_determine.get_element_probing_POVM(kind, dim)))
